@@ -19,6 +19,8 @@ func init() {
 		TFunc{Dir: g, Recv: "cubicSender", Name: "CanSend"},
 		TFunc{Dir: g, Recv: "cubicSender", Name: "isCwndLimited"},
 		TFunc{Dir: g, Recv: "cubicSender", Name: "BandwidthEstimate"},
+		TFunc{Dir: g, Recv: "HybridSlowStart", Name: "IsEndOfRound"},
+		TFunc{Dir: g, Recv: "HybridSlowStart", Name: "OnPacketAcked", Writes: true},
 		TFunc{Dir: g, Recv: "cubicSender", Name: "maybeIncreaseCwnd", Writes: true, Ignore: qlogIgnore, Assume: map[string]string{"reno": "true"}},
 	)
 	registerTrans("Ack",
@@ -32,6 +34,15 @@ func init() {
 		TFunc{Dir: ".", Recv: "Conn", Name: "nextIdleTimeoutTime", Opaque: pto},
 		TFunc{Dir: ".", Recv: "Conn", Name: "nextKeepAliveTime", Opaque: pto},
 		TFunc{Dir: ".", Recv: "Config", Name: "handshakeTimeout"},
+	)
+	fc := "internal/flowcontrol"
+	registerTrans("Flow",
+		TFunc{Dir: fc, Recv: "baseFlowController", Name: "SendWindowSize"},
+		TFunc{Dir: fc, Recv: "baseFlowController", Name: "IsNewlyBlocked", Writes: true},
+		TFunc{Dir: fc, Recv: "baseFlowController", Name: "UpdateSendWindow", Writes: true},
+		TFunc{Dir: fc, Recv: "baseFlowController", Name: "AddBytesSent", Writes: true},
+		TFunc{Dir: fc, Recv: "baseFlowController", Name: "addBytesRead", Writes: true},
+		TFunc{Dir: fc, Recv: "baseFlowController", Name: "checkFlowControlViolation"},
 	)
 	registerTrans("Initial",
 		TFunc{Dir: ".", Recv: "InitialPacketSpec", Name: "initialPN"},
